@@ -50,6 +50,7 @@ def run(ctx: Context) -> None:
     clause_c_order(ctx, idx, res)
     ctx.rule("C02d", "every sampled component has its own draw: no draw result is stored under a data-dependent key (memoised randomness makes components with equal keys perfectly correlated)")
     clause_d(ctx, idx)
+    clause_f_axes(ctx)
 
 
 def clause_c_order(ctx: Context, idx, res) -> None:
@@ -368,3 +369,45 @@ def clause_d(ctx: Context, idx) -> None:
                           f"perfectly correlated)", text)
     ctx.obligation("C02d", "simulators|no-keyed-draws", True, modules=n_mod, draws=n_draw)
     ctx.require_floor("generator draw sites scanned for keyed storage", n_draw, 10)
+
+
+def clause_f_axes(ctx: Context) -> None:
+    """The exact and the sampling treatment of imperfect detectors read the same detector matrix P(detected | actual): a count that is
+    called the same in two sibling functions must be read from the same axis of that matrix (rows = detected, columns = actual)."""
+    ctx.rule("C02f", "sibling functions read a like-named size from the same axis of the same matrix parameter (detector efficiency matrix: the exact "
+                     "and the finite-shots path agree on which axis lists the detectable counts)")
+    idx = get_index(ctx.repo)
+    m = idx.module("piquasso._simulators.simulation_steps")
+    seen: Dict[Tuple[str, str], Dict[int, List[Tuple[FuncInfo, ast.AST]]]] = {}
+    for fn in m.functions.values():
+        params = set(fn.all_params())
+        for a in walk_no_nested(fn.node):
+            if not isinstance(a, ast.Assign) or len(a.targets) != 1:
+                continue
+            t, v = a.targets[0], a.value
+            # n = M.shape[k]
+            if isinstance(t, ast.Name) and isinstance(v, ast.Subscript) and isinstance(v.value, ast.Attribute) and v.value.attr == "shape" \
+                    and isinstance(v.value.value, ast.Name) and v.value.value.id in params and isinstance(v.slice, ast.Constant):
+                seen.setdefault((v.value.value.id, t.id), {}).setdefault(int(v.slice.value), []).append((fn, a))
+            # a, b = M.shape
+            if isinstance(t, ast.Tuple) and isinstance(v, ast.Attribute) and v.attr == "shape" and isinstance(v.value, ast.Name) and v.value.id in params:
+                for k, e in enumerate(t.elts):
+                    if isinstance(e, ast.Name) and e.id != "_":
+                        seen.setdefault((v.value.id, e.id), {}).setdefault(k, []).append((fn, a))
+    n = 0
+    for (mat, name), by_axis in sorted(seen.items()):
+        total = sum(len(v) for v in by_axis.values())
+        if total < 2:
+            continue
+        n += 1
+        ok = len(by_axis) == 1
+        key = f"{m.name}|{name} from {mat}.shape"
+        ctx.obligation("C02f", key, ok, axes=sorted(by_axis))
+        if not ok:
+            minority = min(by_axis.items(), key=lambda kv: len(kv[1]))
+            fn, a = minority[1][0]
+            ctx.violation("C02f", key, fn.file, a.lineno,
+                          f"`{name}` is read from axis {minority[0]} of `{mat}` in {fn.name} but from axis "
+                          f"{[k for k in by_axis if k != minority[0]][0]} in {', '.join(sorted({f.name for k, v in by_axis.items() if k != minority[0] for f, _ in v}))}: "
+                          f"the exact and the sampled treatment of the detectors enumerate different outcome sets", norm(a)[:100])
+    ctx.require_floor("C02f like-named sizes read from a matrix parameter by sibling functions", n, 1)
